@@ -257,6 +257,14 @@ CLAIMED = {
              "reproduces the branch parameters.",
         note="Assumed: create_lines_from_parameters stores its arguments; the line pi model. Not decided: transformer and impedance "
              "parameters, buses / gens / costs, to_ppc (the C02-contracted _pd2ppc), MATPOWER files, the power flow equality itself."),
+    "C27": dict(
+        text="Proof against a set model (member lists as sets, generic group row and generic element): the real detach_from_groups removes "
+             "exactly the detached elements from rows of that element type - for index groups members' = members minus D, for "
+             "reference-column groups only reference values of detached elements that exist in the element table - leaves other rows "
+             "unchanged and keeps a row iff it still has members; the real drop_elements_at_buses detaches the elements while their "
+             "rows are still in the element table and drops them afterwards (ghost table versions).",
+        note="Assumed: pandas Index.difference / intersection are set operations. Not decided: attach_to_group(s), group_element_index, "
+             "in/out-of-service and result functions, reindexing of group members, create_group."),
 }
 
 NOT_APPLICABLE = {
